@@ -4,6 +4,7 @@ package c08
 import (
 	"bytes"
 	"fmt"
+	"net"
 	"reflect"
 	"testing"
 
@@ -331,8 +332,44 @@ func runTx(c RecCase) *pbt.Result {
 	if d := rfl.Diff(want, rfl.Canon(q2, gpack.Hook), nil); d != "" {
 		return pbt.Fail("Read differs from the original: %s", d)
 	}
-	// the same record object, encoded before, is changed in place and encoded again
 	cls := []string{fmt.Sprintf("optional-groups=%d", groups)}
+	// a receiver reads records off a connection, one after the other (seed C08-s23): two copies of the record and two
+	// foreign bytes arrive in segments; each Read takes exactly one record
+	if c.Seed%4 == 0 {
+		server, client := net.Pipe()
+		stream := append(append(append([]byte(nil), b...), b...), 0x5a, 0xa5)
+		seg := 1 + int(c.Seed/4%97)
+		go func() {
+			defer server.Close()
+			for off := 0; off < len(stream); off += seg {
+				if _, err := server.Write(stream[off:min(off+seg, len(stream))]); err != nil {
+					return
+				}
+			}
+		}()
+		nin := wio.NewDataInputNet(client)
+		var rerr interface{}
+		var tail [2]byte
+		func() {
+			defer func() { rerr = recover() }()
+			for k := 0; k < 2; k++ {
+				qn := service.NewTxRecord().Read(nin)
+				if d := rfl.Diff(want, rfl.Canon(qn, gpack.Hook), nil); d != "" {
+					panic(fmt.Sprintf("record %d of 2 read from a connection differs from the original: %s", k+1, d))
+				}
+			}
+			tail[0], tail[1] = nin.ReadByte(), nin.ReadByte()
+		}()
+		client.Close()
+		if rerr != nil {
+			return pbt.Fail("two copies of the record (%d bytes each) and two foreign bytes read from a connection in segments of %d bytes: %v", len(b), seg, rerr)
+		}
+		if tail != [2]byte{0x5a, 0xa5} {
+			return pbt.Fail("after two records read from a connection the next two bytes are %x, sent 5aa5: the reads did not take exactly the records' bytes", tail)
+		}
+		cls = append(cls, "also-read-from-a-connection")
+	}
+	// the same record object, encoded before, is changed in place and encoded again
 	s2 := rfl.NewStream(nil, c.Seed^0x9e3779b97f4a7c15, c.Len)
 	r2 := gpack.TxRecord(s2)
 	r.ToBytes() // encoded immediately before the change: nothing else is encoded in between
